@@ -2,7 +2,7 @@
 # dev helper: apply a seeded patch inside a scratch worktree and run a check against that tree (never /repo).
 # usage: dev/seedrun.sh <worktree> <patch.diff> <Cxx> [harness] [tier]
 wt=$1; patch=$2; prop=$3; h=${4:-}; tier=${5:-quick}
-cd $wt && git checkout -q -- . && git apply $patch || { echo "patch does not apply"; exit 2; }
+cd $wt && git checkout -q -- . && git checkout -q --detach $(git -C /repo rev-parse HEAD) && git apply $patch || { echo "patch does not apply"; exit 2; }
 cd /verif
 if [ -n "$h" ]; then VERIF_REPO=$wt ./check $prop $tier -only $h; else VERIF_REPO=$wt ./check $prop $tier; fi
 code=$?
